@@ -115,7 +115,8 @@ def parseLoop (s : Str) (o : Opts) : Nat → Nat → List Node → List Char →
       | (.ok none, t) => (.ok parts, t)
       | (.ok (some part), t) =>
         let part := part.shift index
-        parseLoop s o fuel (nextIndex part) (parts ++ [part]) t
+        -- `max(part.pos[1], ef.end, index + 1)`: always advance
+        parseLoop s o fuel (max (nextIndex part) (index + 1)) (parts ++ [part]) t
     else (.ok parts, touched)
 
 inductive Outcome where
@@ -132,7 +133,7 @@ def parse (s : Str) (o : Opts := {}) : Outcome × List Char :=
   | (.error e, t) => (.exn e, t)
   | (.ok none, t) => (.parts [], t)
   | (.ok (some first), t) =>
-    match parseLoop s o (s.length + 1) (nextIndex first) [first] t with
+    match parseLoop s o (s.length + 1) (max (nextIndex first) 1) [first] t with
     | (.error e, t) => (.exn e, t)
     | (.ok parts, t) => (.parts parts, t)
 
